@@ -52,7 +52,7 @@ def esc_triple(t):
     return "'''" + ''.join(out) + "'''"
 
 
-CM_TEXTS = ['c1', 'a comment', "it's", '{ brace }', 'Table x {', "note: 'x'", '-- sql', 'DROP TABLE t;', 'ünï 日本', '[pk]',
+CM_TEXTS = ['c1', 'a comment', "it's", '{ brace }', 'Table x {', "note: 'x'", '-- sql', 'DROP TABLE t;', 'ünï 日本', '[pk]', 'C:\\dir\\', 'ends with \\',
             '"q"', '`e`', '#fff', '', 'two  spaces', '} ] )', 'Ref: a.b > c.d', "'''", 'x * / y']
 
 
@@ -585,10 +585,9 @@ def normalise_for_spelling(spec, norm):
             return norm(t) if t else t
         except Exception:  # noqa: BLE001
             return ''
-    names = {t['name'] for t in s['tables']}
     for t in s['tables']:
-        if t['alias'] in names:
-            t['alias'] = None       # AliasShadow: an alias equal to a table's bare name (known finding, wild stream)
+        if t['alias'] is not None and any(u is not t and u['name'] == t['alias'] for u in s['tables']):
+            t['alias'] = None       # AliasShadow: an alias equal to ANOTHER table's bare name (known finding, wild stream)
     for t in s['tables']:
         t['note'] = n(t['note'])
         t['comment'] = None
